@@ -195,6 +195,8 @@ def run(ctx):
             ctx.violation('C04-R3', 'anchor-missing:%s:from_map_or_attrs' % mode, 'not found')
             continue
         rv = prov.prov_of(f).return_value()
+        # a private constructor step (`Self::with_difficulty(map_or_attrs, Difficulty::new())`) is read through
+        rv = prov.inline_all(F, rv, depth=2, _seen=(f.path,), only=lambda f_: (f_.get('impl_adt') or '') == perf(mode) and not f_.get('trait'))
         m = prov.project_field(rv, 'map_or_attrs')
         ctx.require(as_param_path(m, through_calls=False) == (1, ()), 'C04-R3', '%s:from_map_or_attrs' % mode, 'stores its argument as map_or_attrs', f.where(),
                     bad='%s stores `%s`' % (f.path, prov.show(m, maxdepth=3)))
